@@ -14,6 +14,32 @@ def has_filter_change(g):
     s = sexp.dump(g)
     return 'filterwith' in s or 'unfiltered' in s
 
+def leaf_filters(g, flt, out=None):
+    """expected-descriptor of every token leaf of g -> the set of filters active at such a leaf (filter_with / unfiltered
+    change the filter for their argument only); a descriptor with ONE filter tells which filter a failing leaf saw"""
+    if out is None: out = {}
+    if g == 'eot':
+        out.setdefault('eot', set()).add(sexp.dump(flt) if flt else 'none')
+        return out
+    if not isinstance(g, list) or not g:
+        return out
+    h = g[0]
+    key = sexp.dump(flt) if flt else 'none'
+    if h == 'one' and len(g) == 2:
+        out.setdefault('(tok %s)' % g[1], set()).add(key)
+    elif h == 'seq':
+        for k in g[1:]: out.setdefault('(tok %s)' % k, set()).add(key)
+    elif h in ('any', 'anyidx'):
+        out.setdefault('(any %s)' % ' '.join(g[1:]), set()).add(key)
+    elif h == 'filterwith':
+        return leaf_filters(g[2], None if g[1] == 'none' else g[1], out)
+    elif h == 'unfiltered':
+        return leaf_filters(g[1], None, out)
+    for x in g[1:]:
+        if isinstance(x, list) or x == 'eot':
+            leaf_filters(x, flt, out)
+    return out
+
 def errors_of(it):
     """all error trees of a case output: returned errors and sink entries (tags stripped)"""
     out = []
@@ -61,9 +87,20 @@ class C13(GProp):
                     add(t, g, 0, le='lf', tab=4)
                     add(t, ['recoverdef', ['before', 'Semi'], g], 1)
         for i in range(1500 if tier == 'quick' else 20000):
-            k = r.below(5)
+            k = r.below(6)
             t = spangen.random_text(r, ['a', 'b', 'c', 'comma', 'sp', 'sp', 'TAB', 'LF', 'e2', 'bang'], 12)
-            if k == 4:
+            if k == 5:
+                # a next()-based leaf (one, pred, seq) failing on a lexer that already holds a look-ahead (capture wrappers,
+                # up_to, a recovery scan peek before their parser runs), after consumed tokens, with filtered tokens in between
+                leaf = r.choice([['one', 'C'], ['pred', ['is', 'C']], ['seq', 'C', 'A'], ['seq', 'B', 'C']])
+                peeker = r.choice([lambda x: [r.choice(['spanned', 'text']), x], lambda x: ['upto', x, ['Comma']],
+                                   lambda x: ['right', ['maybe', ['one', 'C']], x], lambda x: ['either', x, ['seq', 'C', 'C']],
+                                   lambda x: ['both', ['seqcount', 'C'], x]])
+                g = ['both', r.choice([['one', 'A'], ['seq', 'A', 'B'], ['any', 'A', 'B']]), peeker(leaf)]
+                if r.chance(1, 3): g = ['recoverdef', ['before', 'Comma'], g]
+                t = r.choice([['a'], ['a', 'b'], ['b']]) + spangen.random_text(r, ['sp', 'sp', 'TAB', 'LF', 'e2'], 1 + r.below(3)) + \
+                    spangen.random_text(r, ['b', 'a', 'comma', 'c', 'sp'], 1 + r.below(4))
+            elif k == 4:
                 # a leaf that fails right after the filter was relaxed, with a look-ahead buffered across filtered tokens
                 # before the change (capture wrappers, seq_count stopping at a mismatch, up_to's terminator check)
                 leaf = r.choice([['one', 'C'], ['any', 'C', 'Comma'], ['anyidx', 'C'], ['seq', 'C', 'A'], ['pred', ['is', 'C']], 'eot'])
@@ -103,6 +140,15 @@ class C13(GProp):
         flt = c['filter']
         simple = not has_filter_change(c['g'])
         single = '(seq ' not in sexp.dump(c['g'])
+        lf = {} if simple else leaf_filters(c['g'], flt)
+        def filter_at(exp):
+            """(known, filter) active where the leaf expecting `exp` failed"""
+            if simple: return True, flt
+            fs = lf.get(sexp.dump(exp) if isinstance(exp, list) else exp)
+            if fs and len(fs) == 1:
+                k = next(iter(fs))
+                return True, (None if k == 'none' else sexp.parse(k))
+            return False, None
         for how, e in errors_of(it):
             if not isinstance(e, list):
                 continue
@@ -132,14 +178,16 @@ class C13(GProp):
                         continue
                     if es[1][0] > ts[0][0]:
                         fails.append((None, '%s unexpected-token error: parse-so-far span %s ends after the found token %s begins' % (how, d['es'][0], d['ts'][0])))
-                    if simple and single:
-                        between = [x for x in toks if x['start'][0] >= es[1][0] and x['end'][0] <= ts[0][0] and lexsim.keeps(flt, x['kind'])]
+                    known, fl = filter_at(d['exp'][0])
+                    if known and single:
+                        between = [x for x in toks if x['start'][0] >= es[1][0] and x['end'][0] <= ts[0][0] and lexsim.keeps(fl, x['kind'])]
                         if between:
                             fails.append((None, '%s unexpected-token error names %s at %s but %s at %s is the first token after the parse-so-far span' %
                                           (how, found, d['ts'][0], between[0]['tok'], between[0]['span'])))
-                elif simple:
+                elif filter_at(d['exp'][0])[0]:
+                    fl = filter_at(d['exp'][0])[1]
                     lim = max(es[1][0], ts[1][0])
-                    later = [x for x in toks if x['start'][0] >= lim and lexsim.keeps(flt, x['kind'])]
+                    later = [x for x in toks if x['start'][0] >= lim and lexsim.keeps(fl, x['kind'])]
                     if later:
                         fails.append((None, '%s error reports end of text although %s at %s remains' % (how, later[0]['tok'], later[0]['span'])))
         # (2) bracket errors against the reference matcher (top-level bracket grammars only)
